@@ -7,6 +7,7 @@ R-C09.4  one batch = one transaction: serialise first, one executemany inside on
 R-C09.5  unserialisable traces are skipped, the others of the batch are still produced
 R-C09.6  only the table name is spliced into SQL text; every value is a bound parameter
 R-C09.7  list_modules: modules grouped, no WHERE, only falsy names dropped
+R-C09.8  history on one store: a batch whose transaction failed leaves no memory; a later batch is written in full
 """
 from __future__ import annotations
 
@@ -198,6 +199,61 @@ def rule_add(ctx: Ctx, repo: Repo) -> None:
               "one flush is one add() call (one batch)", construct="; ".join(norm(c) for c in adds))
 
 
+def _batch(ids: Tuple[int, ...]) -> V:
+    return K(tuple(R("rowobj", id=K(i)) for i in ids))
+
+
+def _written_rows(sc: "DM.DbScenario", upto: int) -> Optional[List[str]]:
+    """the rows of the last executemany recorded after position `upto`, rendered; None when nothing was written"""
+    ex = [e for e in sc.executed[upto:] if e[0] in ("executemany", "execute")]
+    if not ex:
+        return None
+    rows = ex[-1][2][0] if ex[-1][2] else None
+    if isinstance(rows, R) and rows.kind == "list":
+        return [str(x) for x in rows.fields["items"]]
+    return [str(rows)]
+
+
+def rule_retry(ctx: Ctx, repo: Repo) -> None:
+    """all-or-none over a history on ONE store object: a batch whose transaction failed was rolled back as a whole, so
+    nothing of it is in the table; whatever is added afterwards through the same store must be written in full - the
+    store may not remember rows it never committed."""
+    add = repo.fn(DM.DB, "SQLiteStore.add")
+    p = add.positional_params()[1]
+    n = 0
+    for first, second in (((0,), (0,)), ((0, 1), (0, 1)), ((0, 1), (1, 2)), ((0,), (0, 1))):
+        # reference: the second batch added through a fresh store
+        ref = DM.DbScenario(repo, "SQLiteStore.add", {"table": K("T")})
+        ref.batch = _batch(second)
+        o = ref.run({p: S("traces")})
+        if len(o) != 1 or o[0].term is not None and o[0].term[0] == "raise":
+            raise AnalysisError("SQLiteStore.add: no single normal outcome for a concrete batch")
+        want = _written_rows(ref, 0)
+        if want is None or len(want) != len(second):
+            raise AnalysisError(f"SQLiteStore.add: a fresh store does not write the {len(second)} rows of a batch ({want})")
+        sc = DM.DbScenario(repo, "SQLiteStore.add", {"table": K("T")})
+        sc.batch = _batch(first)
+        sc.fail_write = "OperationalError"
+        o1 = sc.run({p: S("traces")})
+        lab = f"add({list(first)}) fails in the transaction, then add({list(second)})"
+        if len(o1) != 1:
+            raise AnalysisError("SQLiteStore.add forked on a failing write")
+        ctx.check(o1[0].term is not None and o1[0].term[0] == "raise", "R-C09.8", add.fq,
+                  "a failure inside the transaction leaves add() as an exception (the caller learns the batch was not stored)",
+                  construct=f"{lab}: first add ended {o1[0].term}")
+        mark = len(sc.executed)
+        sc.batch = _batch(second)
+        o2 = sc.run({p: S("traces")}, carry=o1[0])
+        if len(o2) != 1:
+            raise AnalysisError("SQLiteStore.add forked on the retry")
+        got = _written_rows(sc, mark)
+        n += 1
+        ctx.check(got == want, "R-C09.8", add.fq,
+                  "after a rolled-back batch the store writes a later batch in full (nothing is remembered as written before it was committed)",
+                  construct=f"{lab}: writes {0 if got is None else len(got)} of {len(want)} rows")
+    ctx.floor("R-C09.8", "fault-then-add histories", n, 4)
+
+
 def e_of(effs: List[Any], i: int) -> Any:
     return effs[i]
 
@@ -289,6 +345,7 @@ def run(ctx: Ctx, repo: Repo, tier: str) -> None:
     rule_query(ctx, repo)
     rule_filter(ctx, repo)
     rule_add(ctx, repo)
+    rule_retry(ctx, repo)
     rule_serialize(ctx, repo)
     rule_list_modules(ctx, repo)
     rule_schema(ctx, repo)
